@@ -50,6 +50,18 @@ pub fn gen(seed: u64, tier: Tier) -> ScenarioSpec {
             }
         }
         rec.extras.trailing_pseed = rng.next_u64();
+        if rng.chance(1, 40) {
+            // a payload as long as 16 bits can say
+            let code = *rng.pick(&[L::CODE_END, L::CODE_END, L::CODE_START, L::CODE_FEND]);
+            let base = match code {
+                c if c == L::CODE_END => L::end_size((rec.version[0], rec.version[1])),
+                c if c == L::CODE_START => L::start_size((rec.version[0], rec.version[1])),
+                _ => L::payload_size(L::Kind::FEnd, (rec.version[0], rec.version[1])),
+            };
+            if code != L::CODE_FEND || rec.frames.len() < 40 {
+                rec.extras.trailing.insert(code, (65535 - base) as u16);
+            }
+        }
         if rng.chance(1, 3) {
             rec.extras.unknown = gen_unknown(&mut rng, events_hint(&rec), 2);
         }
@@ -173,6 +185,17 @@ pub fn run(spec: &ScenarioSpec, ctx: &mut Ctx) -> Result<(), Violation> {
             if a != b {
                 return Err(Violation::new(P, "field-mismatch", format!("skip-frames-with-extras-vs-without {}", what), format!("{} vs {}", crate::report::short(&a, 120), crate::report::short(&b, 120))));
             }
+        }
+        // whatever else the skip read reports (today: no Gecko codes, no frames) must not depend on the extras
+        // either: same options on the twin file, same answer
+        let tsk = expect_ok(P, "slippi::read(skip_frames, twin)", read_slp(&tm.bytes, &StreamSpec::default(), &[], OptsSpec { skip_frames: true, compute_hash: hash }).res)?;
+        let ga = sk.gecko_codes.as_ref().map(|g| (g.bytes.clone(), g.actual_size));
+        let gb = tsk.gecko_codes.as_ref().map(|g| (g.bytes.clone(), g.actual_size));
+        if ga != gb {
+            return Err(Violation::new(P, "field-mismatch", "skip-frames-with-extras-vs-without gecko_codes", format!("present {} vs {}", ga.is_some(), gb.is_some())));
+        }
+        if sk.frames.len() != tsk.frames.len() {
+            return Err(Violation::new(P, "field-mismatch", "skip-frames-with-extras-vs-without frames.len", format!("{} vs {}", sk.frames.len(), tsk.frames.len())));
         }
         ctx.probe("skip-frames read of a file with extras");
         ctx.check();
